@@ -270,8 +270,9 @@ def diff_outcome(o, seqs, scn):
     return best
 
 
-def explore_scenario(name, scn, bound, max_schedules, rng):
-    """-> (n_schedules, failures[list of dict], lock_edges, max_decisions)"""
+def explore_scenario(name, scn, bound, max_schedules, rng, classify=None, classes=None):
+    """-> (n_schedules, failures[list of dict], lock_edges, max_decisions); `classify(outcome)` maps every
+    explored schedule to an outcome class of the protocol model (collected in the set `classes`)"""
     seqs = sequential_outcomes(scn)
     failures = []
     n = 0
@@ -284,6 +285,8 @@ def explore_scenario(name, scn, bound, max_schedules, rng):
         n += 1
         edges |= s.lock_edges
         maxdec = max(maxdec, len(s.decisions))
+        if classify is not None:
+            classes.add(classify(o))
         if project(o, scn) not in seqs:
             ks, perm, detail = diff_outcome(o, seqs, scn)
             failures.append({'scenario': name, 'deviations': {str(k): v for k, v in dev.items()}, 'differs_in': ks,
@@ -485,3 +488,40 @@ def _m_straggler(case, fails):
     return (f.get('method') in ('build_file', 'build_file_with_comparison', 'subbuild') and f.get('owner') in ('subbuild', 'build_file')
             and f.get('straggler', [None, None])[:2] == ['RuntimeError', 'finished']
             and all(p.get('kind') == 'straggler_runs_after_close' for p in f.get('problems', [])))
+
+
+# ---------------------------------------------------------------------------------------------
+# tie with the Lean protocol models (FB.Conc): every outcome the real code shows under the explored
+# schedules must be an outcome the model reaches under some schedule
+# ---------------------------------------------------------------------------------------------
+def model_outcomes(proto, threads):
+    from . import model
+    out, = model.run_cases([{'kind': 'conc', 'proto': proto, 'threads': threads}])
+    return set(out['outcomes']), out['schedules']
+
+
+def classify_p2(o):
+    created = 'a' in (o.get('createdDirs') or [])
+    exists = any(n[0] == 'a' and n[1] == 'dir' for n in o.get('tree') or [])
+    return 'created=%s count=2 exists=%s' % (str(created).lower(), str(exists).lower())
+
+
+def classify_p1(o):
+    res = o.get('results') or []
+    done = sum(1 for r in res if r and r[0] == 'ok' and r[1][0] == 'ok')
+    rej = sum(1 for r in res if r and r[0] == 'ok' and r[1][0] == 'exc' and r[1][1] == 'RuntimeError')
+    return 'executions=%d done=%d rejected=%d' % (done, done, rej)
+
+
+def classify_p3(owner, method, o):
+    res = o.get('straggler')
+    if res is None:
+        return 'unfinished'
+    if res[0] == 'ok':
+        inrec = bool(o.get('cache_ops')) if owner != 'root' or method in ('build_file', 'build_file_with_comparison', 'subbuild') else True
+        return 'completed-in-record inrecord=%s' % str(bool(inrec)).lower()
+    if res[0] == 'RuntimeError' and res[1] == 'finished':
+        if o.get('ran') or any(n[0].startswith('sdir') for n in o.get('tree') or []):
+            return 'fenced-after-effect'
+        return 'fenced-no-effect inrecord=false'
+    return 'other:%s' % (res,)
